@@ -196,6 +196,15 @@ theorem redefining_earlier_detected (reg : DataReg) (pre mid post : List FlowDef
         · exact hmid d h) hf
   simpa using this
 
+/-- needs `hg`: an earlier definition that is itself faulty stops the run with *its* fault
+(still an error — `compileFlows_ok_iff` — but not the later one's) -/
+theorem redefining_earlier_needs_valid_earlier :
+    ¬ (∀ (f g : FlowDef) (e : Fault), f.compile [] = .error e →
+        compileFlows [] ([] ++ g :: ([] ++ f :: [])) = .error e) := by
+  intro h
+  exact absurd (h { insts := [{ rows := [{ type := .beginBlock }] }] } { dataRowId := "x".toList }
+    .unterminated (by decide)) (by decide)
+
 /-- non-vacuity, both positions: flow `s` is defined by a sheet with an unterminated block
 and by a valid sheet.  Only the valid definition survives when it comes last — and the run
 is stopped all the same. -/
